@@ -59,6 +59,23 @@ let () =
     let c = A.to_crs sc a in
     "alias=1 own=0 copy_owns=1 " ^ dims a ^ " " ^ show_crs c ^ " " ^ spmv1 c x ^ " intact=1" in
   reg "zero_copy" zc; reg "zero_copy_direct" zc;
+  (* index types at the edge of their range: zero_copy_direct<itype> view, generic copy, tuple iteration.
+     Adapters.idx_conv is Z.to_nat o store dst o store src o Z.of_nat; the two nat<->Z embeddings are extracted as
+     unary recursions (ExtrOcamlNatInt + ExtrOcamlZBigInt), infeasible for 2^32-sized values, so the conversion is
+     composed here from the SAME extracted [Adapters.store] on big integers, and handed to the extracted
+     [Adapters.arr_row] (the row function of tuple_adapter / zero_copy_adapter, which takes the conversion as a
+     parameter). *)
+  reg "idx" (fun t -> let it = itype_of (t_s t) in let m = t_crs t in
+    let n = nrows m in
+    let ptr = A.flat_ptr sc m and col = A.flat_col sc m and vl = A.flat_val sc m in
+    let cv (c : int) : int =
+      Big_int_Z.int_of_big_int (A.store A.it_ptrdiff_t (A.store it (Big_int_Z.big_int_of_int c))) in
+    let rows = List.init n (fun i -> A.arr_row sc cv ptr col vl i) in
+    let nnz = if n = 0 then 0 else cv (List.nth ptr n) in
+    let c = { Crs.ncols = m.Crs.ncols; Crs.rows = rows } in
+    let cols = List.concat_map (fun r -> List.map fst r) rows in
+    Printf.sprintf "%d %d %d" n m.Crs.ncols nnz ^ " " ^ show_crs c ^ " " ^ show_crs c
+    ^ " [" ^ String.concat "" (List.map (fun c -> " " ^ string_of_int c) cols) ^ " ]");
   reg "builder" (fun t -> let m = t_crs t in let x = t_vec t in
     square m;
     let rows = Array.of_list m.Crs.rows in
@@ -148,19 +165,21 @@ let () =
     ok_of [ "complex system A z = f", List.length z = List.length fr &&
             List.for_all2 (fun (wr, wi) (a, b) -> qeq wr a && qeq wi b) w (List.map2 (fun a b -> (a, b)) fr fi) ]);
 
-  (* ---- preconditioners: faithful entry-point models (sorting / not sorting) ---- *)
+  (* ---- preconditioners: faithful entry-point models (sorting / not sorting) ----
+     relaxation::as_preconditioner sorts a copy of the user matrix on entry since /repo 71caa28
+     (Adapters.sorting_entry = AdaptersProofs3.asp_entry); preconditioner::dummy only copies *)
   reg "pc" (fun t -> let kind = t_s t in let m = t_crs t in
     square m; let n = nrows m in
     let v = A.crs_view sc m in
     match kind with
     | "asp_damped_jacobi" ->
-      A.plain_entry sc (fun c -> let dia = Relax.jacobi_setup sc c (zeros n) in
+      A.sorting_entry sc (fun c -> let dia = Relax.jacobi_setup sc c (zeros n) in
                          dense_apply n (fun rhs x -> Relax.jacobi_apply sc dia rhs x)) v
     | "asp_spai0" ->
-      A.plain_entry sc (fun c -> let mm = Relax.spai0_setup sc c in
+      A.sorting_entry sc (fun c -> let mm = Relax.spai0_setup sc c in
                          dense_apply n (fun rhs x -> Relax.spai0_apply sc mm rhs x)) v
     | "asp_gauss_seidel" ->
-      A.plain_entry sc (fun c -> dense_apply n (fun rhs x -> Relax.gs_apply sc c rhs x)) v
+      A.sorting_entry sc (fun c -> dense_apply n (fun rhs x -> Relax.gs_apply sc c rhs x)) v
     | "dummy" ->
       A.plain_entry sc (fun _ -> dense_apply n (fun rhs x -> Kernels.vcopy sc rhs x)) v
     | _ -> "UNMODELLED")
